@@ -311,6 +311,47 @@ def check_dominance(fg, cg, inv, res, mpc_o, val_o, pub_o):
             if cont_edge is None or not bb.edge_dominates(cont_edge[0], cont_edge[1], bi):
                 bad += 1
                 res.bad("R10.dom", "_mpc|%s" % o.rsplit("::", 1)[-1], "call to %s is not dominated by a successful validate(ctx)?" % o, where(bb, bi))
+    # nothing that can panic on a caller-supplied value runs before the validation succeeded - also not
+    # inside the arguments of a log macro (they are evaluated when a subscriber enables the level)
+    n_pre = 0
+    for k in fam | set(pubk_ for pubk_, bb_ in fg.bodies.items() if bb_.owner == pub_o):
+        bb = fg.bodies[k]
+        if k != bk and bb.owner == mpc_o:
+            # nested bodies of _mpc: closures built for log macros before the validation
+            pass
+        for bi, blk in enumerate(bb.blocks):
+            if bi not in bb.live_blocks():
+                continue
+            tt = blk["t"]
+            risky = None
+            if tt["k"] == "call":
+                cn = callee_names(tt)
+                tl = cn[-1].rsplit("::", 1)[-1] if cn else ""
+                if tl in ("index", "index_mut", "unwrap", "expect", "split_at", "copy_from_slice") and tt["args"] and tt["args"][0]["k"] != "const":
+                    risky = ("`%s`" % tl, [a for a in tt["args"] if a["k"] != "const"])
+            elif tt["k"] == "assert" and tt.get("mk") in ("BoundsCheck", "DivisionByZero", "RemainderByZero"):
+                risky = (tt["mk"], [o for o in tt["mops"] if o["k"] != "const"])
+            if not risky:
+                continue
+            # does it depend on the caller-supplied Context fields?
+            dep = set()
+            for o in risky[1]:
+                si = SliceInfo(fg, fg.operand_nodes(k, o))
+                dep |= set(si.field_names(CTX)) & {"p_own", "p_eval", "p_out", "inputs", "circ"}
+            if not dep:
+                continue
+            n_pre += 1
+            before = (k == bk and (cont_edge is None or not bb.edge_dominates(cont_edge[0], cont_edge[1], bi))) or bb.owner == pub_o
+            if k != bk and bb.owner == mpc_o:
+                # a closure / async block of _mpc: where is it built?
+                from an import construction_chain
+                ch = construction_chain(fg, k)
+                before = any(pk == bk and (cont_edge is None or not b.edge_dominates(cont_edge[0], cont_edge[1], pbi)) for (pk, pbi, _si) in ch)
+            if before:
+                bad += 1
+                res.bad("R10.dom", "_mpc|panic-before-validate", "%s on a value that depends on the caller-supplied %s can run before validate(ctx)? succeeded (e.g. in the arguments of a log macro): an invalid argument panics instead of being rejected" % (risky[0], sorted(dep)), where(bb, bi),
+                        key="R10.dom|_mpc|panic-before-validate")
+    res.count("panic_capable_operations_on_arguments_in__mpc", n_pre)
     res.floor("engine_calls_in__mpc", n_calls, 4)
     if not bad and cont_edge is not None:
         res.ok("R10.dom", "_mpc|order", where(b, vblock), "%d engine calls, all dominated by the Continue edge of validate(ctx)?" % n_calls)
